@@ -54,25 +54,32 @@ def exempt : List Viol := [
 def known : List Viol := [
   -- SuObject.ToRecord holds only the read lock and calls set (for a `_TS` field)
   .callNeedsW "SuObject.ToRecord" "SuObject.set" .r,
-  -- Sort(lt) and Unique (on a concurrent object) release the lock and keep rewriting ob.list;
+  -- Sort(lt) releases the lock and keeps rewriting ob.list while it calls `lt`;
   -- the `sorting` flag stops writers but not readers
   .readNoLock "SuObject.Sort" "list",
   .writeNoLock "SuObject.Sort" "list",
-  .readNoLock "SuObject.Unique" "list",
-  .writeNoLock "SuObject.Unique" "list",
   -- unlocked reads of fields that other methods write under the lock
   .readNoLock "SuRecord.IsNew" "status",
   .readNoLock "SuRecord.Table" "table",
   .readNoLock "SuRecord.DbUpdate" "hdr"
 ]
 
+/-- violations for which a repair is proposed (fixes/43-unique-unlock-window.patch): Unique on a
+concurrent object compacts ob.list in place after releasing the lock. They are accepted here
+without a counter-claim so that the theorems hold for the source with and without the repair;
+the suite's deterministic probe is what reports the defect on the unrepaired source. -/
+def pendingFix : List Viol := [
+  .readNoLock "SuObject.Unique" "list",
+  .writeNoLock "SuObject.Unique" "list"
+]
+
 /-- Lock discipline (design name `discipline`), partial: every exported method of SuObject,
 SuRecord and the shared-slot accessors of Frame writes receiver state only under `Lock`, reads it
 only under `RLock`/`Lock`, calls unlocked helpers only with a sufficient lock held and never calls
-a locking method with the write lock held — except the listed `exempt` (by contract) and `known`
-(genuine) cases. The full statement is `violations = []`; it is false of the current source, see
+a locking method with the write lock held — except the listed `exempt` (by contract), `known`
+(genuine) and `pendingFix` (genuine, repair proposed) cases. The full statement is `violations = []`; it is false of the current source, see
 `discipline_counter`. Regenerated facts: a new unguarded access breaks this theorem. -/
-theorem discipline_partial : ∀ v ∈ violations, v ∈ exempt ∨ v ∈ known := by decide
+theorem discipline_partial : ∀ v ∈ violations, v ∈ exempt ∨ v ∈ known ∨ v ∈ pendingFix := by decide
 
 /-- the `known` entries are real: each is reported by the analysis of the current source -/
 theorem discipline_counter : ∀ v ∈ known, v ∈ violations := by decide
